@@ -51,6 +51,8 @@ struct Expose
 {
   std::string name, cond;
   std::function<bool(const Env&)> expect;
+  std::string strings = "$a = \"abc\" $b = \"nothere\"";  // the rule's strings section
+  bool bare = false;  // true: the condition is used as it is (no `or (#a + #b < 0)` appended)
 };
 
 static std::vector<Expose> exposures()
@@ -75,6 +77,18 @@ static std::vector<Expose> exposures()
                  int64_t n = e.at("vi").i;
                  return n == 0 ? false : 1 >= n;  // one of the two strings is present
                }});
+  {
+    // none of the rule's strings occurs in the buffer and nothing else in the condition can make it true:
+    // `0 of them` is true exactly then, and a variable holding 0 must behave like the literal
+    Expose x{"vi_of_absent", "vi >= 0 and vi of them", [](const Env& e) { return e.at("vi").i == 0; }};
+    x.strings = "$b = \"nothere\" $c = \"neither\"";
+    x.bare = true;
+    v.push_back(x);
+    Expose y{"vi_of_absent_in", "vi >= 0 and vi of them in (0..vi + 5)", [](const Env& e) { return e.at("vi").i == 0; }};
+    y.strings = x.strings;
+    y.bare = true;
+    v.push_back(y);
+  }
   v.push_back({"vi_read", "uint8(vi) == 0x61", [](const Env& e) { return e.at("vi").i == 2 || e.at("vi").i == 7; }});
   v.push_back({"vi_loop", "for any i in (vi..vi + 2) : (i == 3)", [](const Env& e) {
                  int64_t x = e.at("vi").i;
@@ -158,7 +172,8 @@ std::string run_case(Src& s, CaseInfo& ci)
     }
   }
   std::string src;
-  for (auto& e : ex) src += "rule " + e.name + " { strings: $a = \"abc\" $b = \"nothere\" condition: (" + e.cond + ") or (#a + #b < 0) }\n";
+  for (auto& e : ex)
+    src += "rule " + e.name + " { strings: " + e.strings + " condition: " + (e.bare ? e.cond : "(" + e.cond + ") or (#a + #b < 0)") + " }\n";
   int nerr = ys_compiler_add(c, YS_ADD_STRING, src.c_str(), src.size(), nullptr);
   ys_rules* R = nullptr;
   if (nerr || ys_compiler_get_rules(c, &R) != 0)
